@@ -72,6 +72,9 @@ def connsOfJson (j : Json) : Except String (List (String × List String)) := do
 /-- one construction-API operation -/
 def applyOp (ord : Ord) (c : Circuit) (j : Json) : Except String (Circuit × Outcome × Json) := do
   let op ← (← j.getObjVal? "op").getStr?
+  let viaStep : Op → Except String (Circuit × Outcome × Json) := fun o =>
+    let r := step ord c o
+    pure (r.1, r.2, Json.null)
   match op with
   | "add" =>
     let a : Circuit.AddArgs := {
@@ -80,15 +83,28 @@ def applyOp (ord : Ord) (c : Circuit) (j : Json) : Except String (Circuit × Out
       output := getBoolD j "output" false, addConnected := getBoolD j "add_connected_nodes" false,
       allowRedef := getBoolD j "allow_redefinition" false, uid := getBoolD j "uid" false }
     let (c', o, n) := c.add a
+    let (c'', o') := step ord c (.add a)
+    if c'' != c' || o' != o then throw "step/add mismatch" else
     pure (c', o, jstr n)
-  | "connect" =>
-    let (c', o) := c.connect (getStrListD j "us") (getStrListD j "vs")
-    pure (c', o, Json.null)
-  | "disconnect" => pure (c.disconnect (getStrListD j "us") (getStrListD j "vs"), .ok, Json.null)
-  | "remove" => pure (c.remove (getStrListD j "ns"), .ok, Json.null)
-  | "set_output" =>
-    let (c', o) := c.setOutput (getStrListD j "ns") (getBoolD j "output" true)
-    pure (c', o, Json.null)
+  | "connect" => viaStep (.connect (getStrListD j "us") (getStrListD j "vs"))
+  | "disconnect" => viaStep (.disconnect (getStrListD j "us") (getStrListD j "vs"))
+  | "remove" => viaStep (.remove (getStrListD j "ns"))
+  | "set_output" => viaStep (.setOutput (getStrListD j "ns") (getBoolD j "output" true))
+  | "add_blackbox" =>
+    let bbj ← (← j.getObjVal? "bb").getArr?
+    let bb ← bboxOfJson bbj 0
+    viaStep (.addBlackbox bb (← (← j.getObjVal? "name").getStr?) (← connsOfJson (← j.getObjVal? "connections")))
+  | "add_subcircuit" =>
+    let sc ← circuitOfJson (← j.getObjVal? "sc")
+    if !getBoolD j "strip_io" true then
+      let (c', o) := c.addSubcircuit sc (← (← j.getObjVal? "name").getStr?)
+        (← connsOfJson (← j.getObjVal? "connections")) false
+      pure (c', o, Json.null)
+    else
+    viaStep (.addSubcircuit sc (← (← j.getObjVal? "name").getStr?) (← connsOfJson (← j.getObjVal? "connections")))
+  | "fill_blackbox" =>
+    let sc ← circuitOfJson (← j.getObjVal? "sc")
+    viaStep (.fillBlackbox (← (← j.getObjVal? "name").getStr?) sc)
   | "set_type" =>
     let (c', o) := c.setType (getStrListD j "ns") (← (← j.getObjVal? "type").getStr?)
     pure (c', o, Json.null)
@@ -97,21 +113,6 @@ def applyOp (ord : Ord) (c : Circuit) (j : Json) : Except String (Circuit × Out
       let p ← x.getArr?
       pure ((← p[0]!.getStr?), (← p[1]!.getStr?)))
     pure (c.relabel m, .ok, Json.null)
-  | "add_blackbox" =>
-    let bbj ← (← j.getObjVal? "bb").getArr?
-    let bb ← bboxOfJson bbj 0
-    let (c', o) := c.addBlackbox bb (← (← j.getObjVal? "name").getStr?)
-      (← connsOfJson (← j.getObjVal? "connections")) ord
-    pure (c', o, Json.null)
-  | "add_subcircuit" =>
-    let sc ← circuitOfJson (← j.getObjVal? "sc")
-    let (c', o) := c.addSubcircuit sc (← (← j.getObjVal? "name").getStr?)
-      (← connsOfJson (← j.getObjVal? "connections")) (getBoolD j "strip_io" true)
-    pure (c', o, Json.null)
-  | "fill_blackbox" =>
-    let sc ← circuitOfJson (← j.getObjVal? "sc")
-    let (c', o) := c.fillBlackbox (← (← j.getObjVal? "name").getStr?) sc ord
-    pure (c', o, Json.null)
   | "remove_unloaded" =>
     match c.removeUnloaded (getBoolD j "inputs" false) ord with
     | some (c', removed) => pure (c', .ok, jarr jstr removed)
